@@ -40,6 +40,13 @@ var C04Queries = []string{
 	/* 27 (WTABLE=1) */ "SELECT w.a, unnest(w.l) AS e FROM w.sym w",
 	/* 28 (WTABLE=1) */ "SELECT x.a FROM (SELECT w.a, unnest(w.l) AS e FROM w.sym w) x",
 	/* 29 (WTABLE=1) */ "SELECT x.e FROM (SELECT w.a, unnest(w.l) AS e FROM w.sym w) x WHERE x.e > 0",
+	// predicates that reference NEITHER join branch (constants) above a join
+	/* 30 */ "SELECT t.a, u.b FROM t.sym t JOIN u.sym u ON t.a = u.a WHERE 1 = 2",
+	/* 31 */ "SELECT t.a, u.b FROM t.sym t JOIN u.sym u ON t.a = u.a WHERE 1 = 2 AND t.b > 0",
+	// DISTINCT in a subquery of which only some columns are read outside
+	/* 32 */ "SELECT x.a FROM (SELECT DISTINCT t.a, t.b FROM t.sym t) x",
+	/* 33 */ "SELECT COUNT(*) AS c FROM (SELECT DISTINCT t.a, t.b FROM t.sym t) x",
+	/* 34 */ "SELECT x.a, u.b FROM (SELECT DISTINCT t.a, t.b FROM t.sym t) x JOIN u.sym u ON x.a = u.a",
 }
 
 func ndTables(rows int, accept bool) []*Table {
